@@ -78,4 +78,67 @@ PROPERTIES = {
                          'dependence: checked syntactically - the only id() use is the cycle detector of _scrub_ansi_settings)'],
         'assumptions': ['__eq__ (documented to compare renderings) and encode are outside the claim'],
     },
+    'C01': {
+        'groups': ['R4', 'R3', 'T1', 'K1', 'K2', 'K3', 'S2D', 'N1'],
+        'level': 'other',
+        'explanation': 'Contract on AnsiString.to_str for all 8 combinations of optimize/reset_start/reset_end over bounded-symbolic '
+                       'tables whose setting texts are well-formed SGR parameter groups with symbolic numbers (any code 0..110: known, '
+                       'unknown, clear, reset; 38/48/58;5;n; 38/48/58;2;r;g;b): the output, read by an independent conforming-terminal '
+                       'interpreter (contracts/spec.py: term_apply over an SGR table written from ECMA-48), prints exactly base_str and '
+                       'shows every character (Skolemised over all positions) with the effective style of the settings the value '
+                       'reports for it; with reset_start it begins with a reset and the claim holds for an arbitrary prior terminal '
+                       'state; with reset_end the final state is default whenever a sequence was emitted.  optimize=True/False are '
+                       'display-equivalent because both equal the same expected display.  The library tables are checked against the '
+                       'independent table on all 256 codes (T1); valid/parsable and settings_to_dict have their own contracts.',
+        'trusted_base': ['terminal oracle in contracts/spec.py and its rope twins in pyvc/terminal.py (cross-checked natively)',
+                         'representation invariant wf over-approximates reachable values'],
+        'assumptions': ['base text without ESC', 'format specs are C12', 'AnsiStr renderings are delegations (C13)'],
+    },
+    'C15': {
+        'groups': ['K1', 'K2', 'K3', 'S1', 'R4', 'T1'],
+        'level': 'other',
+        'explanation': 'AnsiSetting.valid == "no character in 0x40-0x7E" is proved for texts of any length (loop invariant, U-mode) '
+                       'including the cache; AnsiSetting.parsable == "one complete known SGR parameter group other than reset" is '
+                       'checked bounded (texts of length <=4/6 over the property alphabet with symbolic characters, and 1-6 symbolic '
+                       'numbers 0..300); is_formatting_valid/parsable/is_optimizable are the conjunction over the settings in use; '
+                       'in-range rgb()/color256() results are parsable (all integers); renderings of valid formatting print exactly '
+                       'base_str (clause printed-text-is-base-str of R4).',
+        'trusted_base': ['parsable_spec / valid_spec in contracts/spec.py written from the statement'],
+        'assumptions': ['setting texts over the byte alphabet named by the property (ASCII)'],
+    },
+    'C18': {
+        'groups': ['J1', 'S2D', 'T1'],
+        'level': 'other',
+        'explanation': 'parse_graphic_sequence on code lists of length <=4/6 with symbolic values 0..255 (list of ints, list of '
+                       'strings, ";"-separated string; both add_erroneous modes): reducing the returned settings in order gives the '
+                       'state the independent terminal reaches on the same codes; every integer token is kept in erroneous mode; empty '
+                       'means reset; the argument list is not modified.  settings_to_dict equals applying the codes on top of the prior '
+                       'state (0-3 settings, prior dict of 0-2 entries or the shared default), arguments untouched, result new.',
+        'trusted_base': ['terminal oracle term_apply in contracts/spec.py'],
+        'assumptions': ['colour arguments in 0..255; a bare 38/48/58 stored as a setting is outside the settings_to_dict claim'],
+    },
+    'C19': {
+        'groups': ['B1', 'B2', 'B3', 'B3b'],
+        'level': 'other',
+        'explanation': 'ParsedAnsiControlSequenceString on all strings of length <=5/7 over the character classes the tokenizer '
+                       'distinguishes (ESC, [, digit, ;, m, A, x as symbolic characters), all flag combinations: unformatted_str and '
+                       'sequences equal the tokenisation written from the statement (contracts/spec.py csi_tokens); formatted_str, '
+                       'str() and repr() reproduce the input.  The 12 cursor/erase/scroll helpers return ESC [ args final-byte for all '
+                       'integers (U-mode) and are parsed back as exactly one sequence and no text (arguments -99..999).',
+        'trusted_base': ['csi_tokens in contracts/spec.py'],
+        'assumptions': [],
+    },
+    'C02': {
+        'groups': ['P3', 'P4', 'B1', 'J1', 'S2D', 'T1'],
+        'level': 'other',
+        'explanation': 'Text without ESC of any length is kept unchanged and unformatted (U-mode: tokenizer loop invariant and variant). '
+                       'For inputs made of up to 3 SGR sequences (0-3 parameter groups each, symbolic numbers) separated and surrounded '
+                       'by texts of arbitrary length, base_str is the input minus exactly the SGR sequences (a non-SGR sequence stays) '
+                       'and every character (Skolemised) reports the state the independent terminal is in when it prints it.  The '
+                       'character-level tokenizer contract (B1) and the code-list contract (J1) carry arbitrary code orders and '
+                       'unterminated / nested candidates.',
+        'trusted_base': ['terminal oracle and csi_tokens in contracts/spec.py; structured-rope tokenizer twin pyvc/tokens.py stands for '
+                         'the tokenizer under contract B1'],
+        'assumptions': ['surrounding texts contain no ESC in P3'],
+    },
 }
